@@ -1,5 +1,5 @@
 CONSTANTS
-  OptSet <- ResOpts
+  OptSet <- ResOptsQ
   RootSets <- ResRoots
   PutIds <- ResPutIds
   ManyArgs <- ResMany
